@@ -108,6 +108,559 @@ def check_correspondence(chk, model, sc):
     j, diffs, tries = mm
     it = sc.eff[j] if j < len(sc.eff) else None
     klass = None
-    if sc.parallel and it is not None and dup_targets(sc.robs, j, it, sc.cfg):
-        klass = "parallel-carry-race-on-equal-addresses"
+    ri = race_index(sc)
+    if ri is not None and ri <= j:
+        klass = "parallel-duplicate-race"
     return {"item": j, "diffs": diffs[:8], "tries": tries, "klass": klass}
+
+
+def race_index(sc):
+    """index of the first track / carry-in command of a PARALLEL run with two targets that have the same
+    cache address (equal bytes or equal CR/LF-normal form, same extension), else None.  The per-target
+    closures of carry_in() then race on one cache path (open finding parallel-duplicate-race); the model
+    is sequential, and what the implementation does from there on depends on the thread schedule."""
+    if not sc.parallel or not sc.robs:
+        return None
+    for j, it in enumerate(sc.eff[:len(sc.robs)]):
+        if dup_targets(sc.robs, j, it, sc.cfg):
+            return j
+    return None
+
+
+# =====================================================================================================
+# Oracles written from the property texts, on the REAL observations only (lstat / readlink / bytes /
+# store files re-read by vlib/repo.py, hashes recomputed with hashlib + tools/blake3_ref.py).
+# Nothing below looks at the model.
+# =====================================================================================================
+import re as _re
+
+HEX = set("0123456789abcdef")
+
+
+def addr_of(rec, p):
+    """address 'b3/<64hex>/<ext>' of the version recorded for p (rec = observation record)"""
+    return None if rec is None or rec[0] == "-" else rec[0] + "/" + R.ext_of(p)
+
+
+def digest_matches(dstr, data):
+    algo, hx_ = dstr.split("/", 1)
+    return hx_ in (R.ref_hash(algo, data), R.ref_hash(algo, R.strip_crlf(data)))
+
+
+def ws_bytes(o, p):
+    e = o["ws"].get(p) if o else None
+    return None if e is None or e[2] == "!" else bytes.fromhex(e[2])
+
+
+def obj_bytes(o, a):
+    e = o["objs"].get(a) if o else None
+    return None if e is None or e[3] in ("!", "?") else bytes.fromhex(e[3])
+
+
+EMPTY_OBS = {"oc": "Ok", "ws": {}, "objs": {}, "recs": {}, "ino": {}, "wino": {}, "raw": {}}
+
+
+def before_after(sc):
+    prev = EMPTY_OBS
+    for j, o in enumerate(sc.robs):
+        yield j, sc.eff[j], prev, o
+        prev = o
+
+
+def layout_check(o, cfg):
+    """.xvc/<prefix of the configured algorithm>/<3 hex>/<3 hex>/<58 hex>/0.<ext>"""
+    bad = []
+    for addr, rel in o.get("raw", {}).items():
+        parts = rel.split("/")
+        ok = (len(parts) == 5 and parts[0] == cfg["algo"] and len(parts[1]) == 3 and len(parts[2]) == 3 and len(parts[3]) == 58
+              and set(parts[1] + parts[2] + parts[3]) <= HEX and parts[4].startswith("0."))
+        if not ok:
+            bad.append("cache file %s does not have the layout %s/3/3/58/0.ext" % (rel, cfg["algo"]))
+    return bad
+
+
+def relink_taint(sc):
+    """per item index: the set of cache addresses touched by a commit that renamed a LINK into the cache
+    (class 'relink': the target of a track / carry-in was a symlink or a hard link to a cache object
+    and the command created a new cache file from it, or replaced one with --force)"""
+    tainted, out = set(), []
+    for j, it, b, a in before_after(sc):
+        if it[0] in ("track", "carry"):
+            for p in it[2]:
+                e = b["ws"].get(p)
+                if e is None or e[0] == "F":
+                    continue
+                new = set(a["objs"]) - set(b["objs"])
+                rec_a = addr_of(a["recs"].get(p), p)
+                moved = bool(new) or (it[1].get("f") and e[0].startswith("H"))
+                if moved:
+                    tainted |= new | {e[0][1:]}
+                    if rec_a:
+                        tainted.add(rec_a)
+        # an inode shared by two addresses taints both
+        inos = {}
+        for ad, i in a.get("ino", {}).items():
+            inos.setdefault(i, []).append(ad)
+        for ads in inos.values():
+            if len(ads) > 1 and set(ads) & tainted:
+                tainted |= set(ads)
+        out.append(set(tainted))
+    return out
+
+
+def alias_pair(x, y):
+    return x is not None and y is not None and x != y and R.strip_crlf(x) == R.strip_crlf(y)
+
+
+class Expect:
+    """what the user is entitled to get back for each path: the bytes that were in the workspace when a
+    track / carry-in recorded a digest that these bytes hash to (independently re-hashed) and the object
+    of that digest is in the cache.  None = nothing committed (e.g. --no-commit)."""
+
+    def __init__(self):
+        self.exp = {}
+
+    def update(self, it, b, a):
+        if it[0] not in ("track", "carry") or a["oc"] == "Panic":
+            return
+        for p in it[2]:
+            rec = a["recs"].get(p)
+            if rec is None:
+                continue
+            ad = addr_of(rec, p)
+            data = ws_bytes(b, p)
+            changed = (b["recs"].get(p) or [None])[0] != rec[0]
+            if ad is None or ad not in a["objs"]:
+                if changed:
+                    self.exp[p] = None
+                continue
+            kind = (b["ws"].get(p) or ["-"])[0]
+            if data is not None and digest_matches(rec[0], data):
+                if it[0] == "track" and it[1].get("nc") and changed:
+                    self.exp[p] = None          # recorded, not committed
+                elif kind == "F" or p not in self.exp:
+                    self.exp[p] = data
+            elif changed:
+                self.exp[p] = None
+
+
+def c01_oracle(sc):
+    """C01: (a) a recheck of a path that was deleted before, or a recheck --force, reproduces exactly the
+    committed bytes, for the method used, serial or parallel; (b) no recheck changes the recorded digest
+    or the digest history of any path."""
+    bad = []
+    ex = Expect()
+    taint = relink_taint(sc)
+    for j, it, b, a in before_after(sc):
+        if a["oc"] == "Panic":
+            break
+        ex.update(it, b, a)
+        if it[0] == "recheck":
+            for p in set(a["recs"]) | set(b["recs"]):
+                rb, ra = b["recs"].get(p), a["recs"].get(p)
+                if rb is None or ra is None or rb[0] != ra[0] or rb[3] != ra[3]:
+                    bad.append((j, "recheck changed the record of %s: %s -> %s" % (p, R.short(rb), R.short(ra)), None))
+            lst = a.get("list")
+            if lst is not None:
+                for p, (rcd, rrm) in lst.items():
+                    rb = b["recs"].get(p)
+                    if rb is not None and rb[0] != "-" and rcd and rb[0].split("/", 1)[1] != rcd:
+                        bad.append((j, "xvc file list shows recorded digest %s for %s after recheck, it was %s" % (rcd[:10], p, rb[0][:13]), None))
+            for p in it[2]:
+                want = ex.exp.get(p)
+                if want is None or p not in b["recs"]:
+                    continue
+                absent = p not in b["ws"]
+                if not (absent or it[1].get("f")):
+                    continue
+                got = ws_bytes(a, p)
+                if got != want:
+                    klass = None
+                    ad = addr_of(b["recs"].get(p), p)
+                    if alias_pair(got, want) or (got is None and ad in taint[j]):
+                        klass = "alias" if got is not None else "relink"
+                    if ad in taint[j]:
+                        klass = "relink"
+                    bad.append((j, "recheck%s of %s (%s) gives %s, committed were %s" % (
+                        " --force" if it[1].get("f") else "", p, it[1].get("m") or "stored method",
+                        R.short(got.hex() if got is not None else None), R.short(want.hex())), klass))
+        if it[0] in ("track", "carry"):
+            # the commit itself must not lose the bytes it was given (P2: they meet an alias in the cache)
+            for p in it[2]:
+                want, got = ex.exp.get(p), ws_bytes(a, p)
+                if want is not None and got is not None and got != want and ws_bytes(b, p) == want:
+                    bad.append((j, "%s of %s replaced its bytes %s by %s" % (it[0], p, R.short(want.hex()), R.short(got.hex())),
+                                "alias" if alias_pair(got, want) else None))
+    return bad
+
+
+def c02_oracle(sc):
+    """C02: after every item every cache object is at the address of its own bytes (independent hashes,
+    raw or CR/LF-stripped), in the documented layout, read-only in a read-only directory, a regular file;
+    objects present before and after an item keep their bytes -- and, when the command is not forced,
+    their inode; identical content with the same extension is one object."""
+    bad = []
+    taint = relink_taint(sc)
+    for j, it, b, a in before_after(sc):
+        after_panic = a["oc"] == "Panic"
+        for v in R.cas_check(a) + layout_check(a, sc.cfg):
+            m = _re.search(r"(?:object|entry|directory of object) (\S+)", v)
+            ad = m.group(1) if m else None
+            klass = None
+            if ad in taint[j] or ("not a regular file" in v):
+                klass = "relink"
+            if after_panic and "writable" in v:
+                klass = "left-writable-after-panic"
+            bad.append((j, v, klass))
+        forced = it[0] in ("track", "carry") and it[1].get("f")
+        for ad, e in a["objs"].items():
+            pe = b["objs"].get(ad)
+            if pe is None:
+                continue
+            if pe[0] == "F" and e[0] == "F" and pe[3] != e[3]:
+                x, y = bytes.fromhex(pe[3]), bytes.fromhex(e[3])
+                klass = "relink" if ad in taint[j] else ("alias-object-swapped" if forced and alias_pair(x, y) else None)
+                bad.append((j, "bytes of object %s changed from %s to %s" % (ad, pe[3][:40], e[3][:40]), klass))
+            elif not forced and b.get("ino", {}).get(ad) != a.get("ino", {}).get(ad):
+                bad.append((j, "object %s was replaced (inode %s -> %s) by an unforced %s" % (ad, b["ino"].get(ad), a["ino"].get(ad), it[0]),
+                            "relink" if ad in taint[j] else None))
+        if it[0] in ("W", "T", "D", "U") and set(a["objs"]) != set(b["objs"]):
+            bad.append((j, "a user action changed the set of cache objects", None))
+        # deduplication: one object per (algorithm, extension, bytes)
+        seen = {}
+        for ad, e in a["objs"].items():
+            if e[0] != "F" or e[3] in ("!", "?"):
+                continue
+            key = (ad.split("/", 2)[0], ad.split("/", 2)[2], e[3])
+            seen.setdefault(key, []).append(ad)
+        for key, ads in seen.items():
+            # the same bytes may legitimately sit at the text AND at the binary address: more is a duplicate
+            if len(ads) > 2:
+                bad.append((j, "identical content stored %d times: %s" % (len(ads), ", ".join(a_[:14] for a_ in ads)), None))
+        if after_panic:
+            break
+    return bad
+
+
+METHOD_LETTER = {"copy": "C", "hardlink": "H", "symlink": "S", "reflink": "R"}
+
+
+def kind_ok(o, p, method, addr):
+    """does the workspace entry of p in observation o have the kind method promises, w.r.t. address addr?
+    returns None or a description of what is wrong (lstat kind, mode, inode, link target)"""
+    e = o["ws"].get(p)
+    if e is None:
+        return "no workspace entry"
+    kind, w = e[0], e[1]
+    if method in ("copy", "reflink"):
+        if kind != "F":
+            return "expected an independent regular file, found %s" % kind[:16]
+        if w != "1":
+            return "the copy is not user-writable"
+        if o["wino"].get(p) in set(o["ino"].values()):
+            return "the copy shares its inode with a cache object"
+    elif method == "hardlink":
+        if kind != "H" + addr:
+            return "expected a hard link to %s, found %s" % (addr[:14], kind[:16])
+        if w != "0":
+            return "the hard link is writable"
+        if o["wino"].get(p) != o["ino"].get(addr):
+            return "inode differs from the object's"
+    elif method == "symlink":
+        if kind != "L" + addr:
+            return "expected a symlink to %s, found %s" % (addr[:14], kind[:16])
+    return None
+
+
+def c17_oracle(sc):
+    """C17: after `recheck` (path deleted before, or --force, or another method requested for an entry the
+    user has not touched) and after a `track` that names a method, the workspace entry is of the kind of
+    the method in force (requested, else recorded, else configured default), reads the committed bytes,
+    and the method recorded afterwards is the one in force; a plain recheck uses the recorded method;
+    editing a copy changes no cache object."""
+    bad = []
+    ex = Expect()
+    taint = relink_taint(sc)
+    dirty = {}          # path -> the user touched the entry since xvc last materialised it
+    for j, it, b, a in before_after(sc):
+        if a["oc"] == "Panic":
+            break
+        k = it[0]
+        if k in ("W", "T", "D", "U"):
+            dirty[it[1]] = True
+            # editing a copy (or anything else the user may do) changes no cache object
+            if k == "T" and (b["ws"].get(it[1]) or ["-"])[0] == "F":
+                for ad, e in a["objs"].items():
+                    if b["objs"].get(ad) != e:
+                        bad.append((j, "editing the copy %s changed cache object %s" % (it[1], ad[:14]), "relink" if ad in taint[j] else None))
+            continue
+        ex.update(it, b, a)
+        for p in it[2]:
+            rb, ra = b["recs"].get(p), a["recs"].get(p)
+            if ra is None:
+                continue
+            ad = addr_of(ra, p)
+            want = ex.exp.get(p)
+            if k == "recheck":
+                if rb is None or a["oc"] != "Ok":
+                    continue
+                m = it[1].get("m") or rb[1]
+                absent = p not in b["ws"]
+                acted = absent or it[1].get("f") or (m != rb[1] and not dirty.get(p) and p in b["ws"])
+                if not acted or ad not in b["objs"]:
+                    continue
+                what = kind_ok(a, p, m, ad)
+                if what is None and want is not None and ws_bytes(a, p) != want and not alias_pair(ws_bytes(a, p), want):
+                    what = "reads %s, committed were %s" % (R.short((ws_bytes(a, p) or b"").hex()), R.short(want.hex()))
+                if what is None and ra[1] != m:
+                    what = "method in force %s, recorded afterwards %s" % (m, ra[1])
+                lst = a.get("list")
+                if what is None and lst is not None and p in lst and lst[p][1] and lst[p][1] != METHOD_LETTER.get(m):
+                    what = "xvc file list shows recheck method %s, in force was %s" % (lst[p][1], m)
+                if what:
+                    bad.append((j, "recheck %s of %s: %s" % (it[1].get("m") or "(stored %s)" % rb[1], p, what),
+                                "relink" if ad in taint[j] else None))
+                else:
+                    dirty[p] = False
+            elif k == "track":
+                if a["oc"] != "Ok" or it[1].get("nc") or ad not in a["objs"]:
+                    continue
+                m = it[1].get("m") or (ra[1] if rb is not None and rb[0] == ra[0] and rb[1] == ra[1] else sc.cfg["method"])
+                if p not in b["ws"]:
+                    continue
+                newly = rb is None or rb[0] != ra[0]
+                if not newly and not it[1].get("m"):
+                    continue          # nothing to commit and no method named: nothing is promised
+                what = kind_ok(a, p, m, ad)
+                if what is None and ra[1] != m:
+                    what = "method in force %s, recorded afterwards %s" % (m, ra[1])
+                if what:
+                    klass = None
+                    if ad in taint[j]:
+                        klass = "relink"
+                    elif not newly:
+                        klass = "track-method-unchanged-content"
+                    elif it[1].get("f") and sum(1 for q in set(a["recs"]) if addr_of(a["recs"][q], q) == ad) > 1:
+                        klass = "forced-duplicate"
+                    bad.append((j, "track %s of %s: %s" % (it[1].get("m") or "(default %s)" % m, p, what), klass))
+                else:
+                    dirty[p] = False
+            elif k == "carry":
+                # carry-in rechecks with the STORED method
+                if a["oc"] != "Ok" or rb is None or ad not in a["objs"] or p not in b["ws"]:
+                    continue
+                if rb[0] == ra[0] and not it[1].get("f"):
+                    continue
+                if (b["ws"].get(p) or ["-"])[0] != "F":
+                    continue          # a link has no content of its own to carry in (P27)
+                what = kind_ok(a, p, rb[1], ad)
+                if what:
+                    klass = None
+                    if ad in taint[j]:
+                        klass = "relink"
+                    elif it[1].get("f") and sum(1 for q in set(a["recs"]) if addr_of(a["recs"][q], q) == ad) > 1:
+                        klass = "forced-duplicate"
+                    bad.append((j, "carry-in of %s (stored method %s): %s" % (p, rb[1], what), klass))
+                else:
+                    dirty[p] = False
+        # a forced commit of a duplicate replaces the object other paths are linked to
+        if k in ("track", "carry") and it[1].get("f"):
+            for q, rq in a["recs"].items():
+                if q in it[2] or q not in a["ws"] or q not in b["ws"]:
+                    continue
+                adq = addr_of(rq, q)
+                if rq[1] == "hardlink" and b["ws"][q][0] == "H" + str(adq) and a["ws"][q][0] != b["ws"][q][0]:
+                    bad.append((j, "%s --force of another path unlinked the hard link %s from its object" % (k, q), "forced-duplicate"))
+    return bad
+
+
+# =====================================================================================================
+# generators
+# =====================================================================================================
+def gen_opts(rng, kind, p_force=0.2):
+    if kind == "track":
+        return {"m": rng.choice(R.METHODS) if rng.random() < 0.5 else None, "t": rng.choice(R.TOBS) if rng.random() < 0.15 else None,
+                "nc": rng.random() < 0.06, "f": rng.random() < p_force / 2}
+    if kind == "carry":
+        return {"t": rng.choice(R.TOBS) if rng.random() < 0.12 else None, "f": rng.random() < p_force}
+    return {"m": rng.choice(R.METHODS) if rng.random() < 0.6 else None, "f": rng.random() < p_force}
+
+
+def gen_cfg(rng, idx):
+    """all 4 algorithms, 4 default methods and 3 text-or-binary modes are cycled through"""
+    return {"algo": list(R.ALGOS)[idx % 4], "method": R.METHODS[(idx // 4) % 4] if rng.random() < 0.5 else "copy",
+            "tob": R.TOBS[(idx // 2) % 3] if rng.random() < 0.4 else "auto"}
+
+
+def gen_c01(rng, idx):
+    """commit, then histories of later commands, then probes: delete / damage + recheck with each method"""
+    cfg = gen_cfg(rng, idx)
+    paths = rng.sample(R.PATHS, rng.randint(1, 3))
+    pool = rng.sample(R.CONTENTS, rng.randint(2, 4))
+    if rng.random() < 0.35:      # files differing only in line endings, duplicates
+        pool += [b"a\nb\n", b"a\r\nb\r\n"]
+    items = [("W", p, rng.choice(pool)) for p in paths]
+    if rng.random() < 0.25:
+        items.append(("track", {"nc": True}, list(paths)))
+        items.append(("carry", {"f": rng.random() < 0.5}, list(paths)))
+    else:
+        items.append(("track", gen_opts(rng, "track", 0.05), list(paths) if rng.random() < 0.7 else [paths[0]]))
+    for _ in range(rng.randint(1, 5)):
+        p = rng.choice(paths)
+        x = rng.random()
+        if x < 0.3:
+            items.append(("W", p, rng.choice(pool)))
+            if rng.random() < 0.6:
+                items.append((rng.choice(["track", "carry"]), gen_opts(rng, rng.choice(["track", "carry"]), 0.15), [p]))
+                items[-1] = (items[-1][0], gen_opts(rng, items[-1][0], 0.15), [p])
+        elif x < 0.4:
+            items.append(("U", p))
+        elif x < 0.5:
+            items.append(("T", p, rng.choice(pool)))
+        elif x < 0.75:
+            items.append(("recheck", gen_opts(rng, "recheck", 0.3), [p] if rng.random() < 0.6 else list(paths)))
+        else:
+            items.append(("track", gen_opts(rng, "track", 0.1), list(paths)))
+    for p in paths:              # the probes
+        if rng.random() < 0.5:
+            items.append(("D", p))
+            items.append(("recheck", {"m": rng.choice(R.METHODS + [None]), "f": rng.random() < 0.3}, [p]))
+        else:
+            items.append(("W", p, b"damaged " + rng.choice(pool)[:20]))
+            items.append(("recheck", {"m": rng.choice(R.METHODS + [None]), "f": True}, [p]))
+    return cfg, items
+
+
+def gen_c17(rng, idx):
+    """chains of method changes on one path (copy -> symlink -> hardlink -> copy ...) interleaved with
+    edits, carry-in, deletion, recheck with and without a method; a second path with equal content"""
+    cfg = gen_cfg(rng, idx)
+    paths = rng.sample(R.PATHS, rng.randint(1, 2))
+    pool = rng.sample(R.CONTENTS, rng.randint(2, 3))
+    p = paths[0]
+    items = [("W", q, pool[0] if rng.random() < 0.6 else rng.choice(pool)) for q in paths]
+    items.append(("track", {"m": rng.choice(R.METHODS) if rng.random() < 0.6 else None, "f": rng.random() < 0.06}, list(paths)))
+    chain = list(R.METHODS)
+    rng.shuffle(chain)
+    chain = chain + [chain[0]]
+    for m in chain[:rng.randint(2, 5)]:
+        x = rng.random()
+        if x < 0.25:
+            items.append(("D", p))
+        elif x < 0.4:
+            items.append(("T", p, rng.choice(pool)))             # edit in place (refused on a hard link)
+            if rng.random() < 0.6:
+                items.append(("carry", {"f": rng.random() < 0.2}, [p]))
+        elif x < 0.5:
+            items.append(("W", p, rng.choice(pool)))
+            items.append((rng.choice(["carry", "track"]), {}, [p]))
+        elif x < 0.56:
+            items.append(("U", p))
+            items.append(("track", {"m": rng.choice(R.METHODS)}, [p]))
+        items.append(("recheck", {"m": m, "f": rng.random() < 0.25}, [p] if rng.random() < 0.7 else list(paths)))
+        if rng.random() < 0.4:
+            items.append(("D", p))
+            items.append(("recheck", {}, [p]))                   # plain: the stored method
+    return cfg, items
+
+
+# =====================================================================================================
+# the common driver of C01 / C02 / C17
+# =====================================================================================================
+def execute_listing(xvc, sc, list_kinds):
+    rr = R.RealRun(xvc, sc.cfg, parallel=sc.parallel)
+    rr.list_kinds = list_kinds
+    try:
+        sc.robs, sc.eff = rr.run(sc.items)
+        sc.log = rr.log
+    finally:
+        rr.close()
+    return sc
+
+
+def drive(chk, replay, prop, gen, oracle, nontrivial, n_quick, n_thorough, rule, theorems, list_kinds=(), threads=12):
+    """proof audit; corpus first, then generated histories on the real binary (alternating parallel and
+    --no-parallel); the property's oracle on every real observation; correspondence with the extracted
+    model item by item; shrinking; classification against the open findings"""
+    chk.cov["trusted_base"] = REPO_TRUSTED
+    chk.proof()
+    model = C.ensure_model("Repo", ["Base", "Repo"])
+    xvc = C.ensure_xvc()
+    scs = []
+    if replay:
+        scs = [from_replay(replay)]
+    else:
+        cdir = os.path.join(C.ROOT, "corpus", prop)
+        for f in sorted(os.listdir(cdir)) if os.path.isdir(cdir) else []:
+            rep = json.load(open(os.path.join(cdir, f)))
+            for par in ([rep["parallel"]] if "parallel" in rep else [False, True]):
+                scs.append(from_replay(dict(rep, parallel=par), len(scs)))
+        ncorpus = len(scs)
+        n = n_quick if chk.tier == "quick" else n_thorough
+        for i in range(n):
+            cfg, items = gen(chk.rng, i)
+            scs.append(Scenario(len(scs), cfg, items, parallel=(i % 2 == 1)))
+    with ThreadPoolExecutor(threads) as ex:
+        list(ex.map(lambda s: execute_listing(xvc, s, list_kinds), scs))
+    dist = {"histories": len(scs), "items": 0, "track": 0, "carry": 0, "recheck": 0, "user": 0, "panics": 0, "errors": 0,
+            "parallel": 0, "algo": {}, "default_method": {}, "tob": {}, "methods_requested": {}, "forced": 0}
+    reported = 0
+    for sc in scs:
+        chk.count(json.dumps(to_replay(sc), sort_keys=True), nontrivial(sc))
+        dist["parallel"] += bool(sc.parallel)
+        for key, fld in (("algo", "algo"), ("default_method", "method"), ("tob", "tob")):
+            dist[key][sc.cfg[fld]] = dist[key].get(sc.cfg[fld], 0) + 1
+        for it, o in zip(sc.eff, sc.robs):
+            dist["items"] += 1
+            dist[it[0] if it[0] in ("track", "carry", "recheck") else "user"] += 1
+            dist["panics"] += o["oc"] == "Panic"; dist["errors"] += o["oc"] == "Err"
+            if it[0] in ("track", "recheck") and it[1].get("m"):
+                dist["methods_requested"][it[1]["m"]] = dist["methods_requested"].get(it[1]["m"], 0) + 1
+            if it[0] in ("track", "carry", "recheck") and it[1].get("f"):
+                dist["forced"] += 1
+        bad = oracle(sc)
+        ri = race_index(sc)
+        if ri is not None:
+            bad = [(j, w, k if (k is not None or j < ri) else "parallel-duplicate-race") for (j, w, k) in bad]
+        if bad:
+            unknown = [x for x in bad if x[2] is None]
+            j, what, klass = (unknown or bad)[0]
+            s2 = sc
+            if unknown and not replay and reported < 3:
+                s2 = shrink_scenario_with(xvc, sc, lambda s: [x for x in oracle(s) if x[2] is None], list_kinds)
+                b2 = [x for x in oracle(s2) if x[2] is None]
+                if b2:
+                    j, what, klass = b2[0]
+            if klass is not None or reported < 3:
+                chk.fail("oracle", what, dict(to_replay(s2), failing_item=j, kind="impl-history"), name="oracle", klass=klass)
+            reported += klass is None
+            if unknown:
+                continue
+        mm = check_correspondence(chk, model, sc)
+        if mm and reported < 3:
+            chk.fail("correspondence", "model and implementation differ at item %d: %s" % (mm["item"], "; ".join(mm["diffs"][:3])),
+                     dict(to_replay(sc), failing_item=mm["item"], diffs=mm["diffs"],
+                          theorem_or_correspondence=theorems + "; correspondence repomodel vs xvc"),
+                     name="corr", klass=mm["klass"], has_input=False)
+            reported += mm["klass"] is None
+        elif not mm:
+            chk.cov["traces_validated_against_impl"] += 1
+    for sc in scs[:1] + scs[-2:]:
+        chk.sample(to_replay(sc))
+    chk.cov["distribution"] = dist
+    chk.cov["rule"] = rule
+    return chk
+
+
+def shrink_scenario_with(xvc, sc, fails, list_kinds):
+    def still(items):
+        s2 = Scenario(sc.idx, sc.cfg, items, sc.parallel)
+        try:
+            execute_listing(xvc, s2, list_kinds)
+            return bool(fails(s2))
+        except Exception:
+            return False
+    items = C.shrink_list(sc.items, still, max_rounds=40)
+    s2 = Scenario(sc.idx, sc.cfg, items, sc.parallel)
+    execute_listing(xvc, s2, list_kinds)
+    return s2
